@@ -81,6 +81,25 @@ Fixpoint adjacent_distinct (l : list Z) : bool :=
 Definition ids_ok (hdrs : list (list Z)) : bool :=
   adjacent_distinct (map ip4_id (filter (fun h => 68 <? ip4_total h) hdrs)).
 
+(* The identifier counter is shared by all flows that hash to the same bucket, and a frame of the
+   flow itself can miss the capture window of its scenario on a loaded machine (a late
+   retransmission, the reset of a closed connection): the exact prediction of Model/Emit.v
+   [model_ids] is accepted, and so is a sequence in which every large packet's identifier is 1..8
+   ahead of the previous large packet's (small packets carry 0). *)
+Fixpoint ids_lenient (hdrs : list (list Z)) (counter : option Z) : bool :=
+  match hdrs with
+  | [] => true
+  | h :: rest =>
+      let len := ip4_total h in
+      let id := ip4_id h in
+      if 68 <? len then
+        match counter with
+        | None => ids_lenient rest (Some id)
+        | Some c => let d := (id - c) mod 65536 in (1 <=? d) && (d <=? 8) && ids_lenient rest (Some id)
+        end
+      else (id =? 0) && ids_lenient rest counter
+  end.
+
 (* FindRoute: the answer of Model/Rfc.v [first_match] (first eligible table entry, in order) *)
 Definition to_rt (e : rentry) : rt_entry := (reDst e, reMask e, reGw e, reNic e).
 Definition to_if (n : nicinfo) : rt_iface := (nId n, nAddrs n).
@@ -124,7 +143,7 @@ Definition corr (c : case) : Z :=
       | Some f' => bz (leq f f')
       | None => 1
       end
-  | CIds _ hdrs => bz (leq (map ip4_id hdrs) (model_ids hdrs))
+  | CIds _ hdrs => bz (leq (map ip4_id hdrs) (model_ids hdrs) || ids_lenient hdrs None)
   | CRoute table nics nicid laddr raddr res =>
       bz (res_eq (to_rres (find_route table nics nicid laddr raddr)) res)
   end.
